@@ -114,6 +114,9 @@ def gen_program(rng, feat):
             f["path"] = paths.pop()
             if feat["pathvars"] and rng.random() < 0.4:
                 f["pathform"] = "var"
+            if feat["defaults"] and rng.random() < 0.3:
+                # a data function may have parameters as long as all of them have defaults (it is called without arguments)
+                f["params"] = [[f"a{k}", _lit(rng, feat)] for k in range(rng.randint(1, 2))]
         if kind == "target":
             np_ = rng.randint(1, 3)
             params = []
@@ -367,6 +370,43 @@ def add_ill(prog, rng, kind, tag, avoid=()):
 NODEFAULT_ = ir.NODEFAULT
 
 
+def keep_entries(prog):
+    """Kept targets whose (unique) keep site binds every parameter statically: the driver can issue the same
+    dds.keep(path, target, values...) directly."""
+    from .cone import Cones
+
+    c = Cones(prog)
+    out = []
+    for fn in sorted(prog["funcs"]):
+        f = prog["funcs"][fn]
+        if f["kind"] != "target" or f.get("ill"):
+            continue
+        site = c.keep_site(fn)
+        if site is not None and c.static_binding(*site) is not None:
+            out.append(fn)
+    return out
+
+
+def driver_keep_call(prog, target):
+    """(path, args, kwargs) of the driver-level dds.keep equivalent to the target's static keep site, or None."""
+    from .cone import Cones
+
+    c = Cones(prog)
+    site = c.keep_site(target)
+    if site is None or c.static_binding(*site) is None:
+        return None
+    it = prog["funcs"][site[0]]["body"][site[1]]
+    args, kwargs = [], {}
+    for a in it["args"]:
+        if a["k"] == "lit":
+            args.append(a["v"])
+        elif a["k"] == "kw":
+            kwargs[a["n"]] = a["v"]
+        else:
+            return None
+    return it["path"], args, kwargs
+
+
 def reachable(prog, root):
     seen, stack = set(), [root]
     while stack:
@@ -441,7 +481,8 @@ def gen_edit(rng, prog, kinds):
                      and it["args"]]
             if sites:
                 fn, i = rng.choice(sites)
-                return {"kind": "respell", "f": fn, "item": i, "mode": rng.choice(["kw", "pos", "kwrev"])}
+                return {"kind": "respell", "f": fn, "item": i,
+                        "mode": rng.choice(["kw", "pos", "kwrev", "explicit_default", "omit_default"])}
         if k == "path":
             sites = [(fn, i) for fn in names for i, it in enumerate(prog["funcs"][fn]["body"]) if it["t"] == "keep"]
             used = set(all_paths(prog))
@@ -559,6 +600,17 @@ def _respell(p, it, mode):
             pos += 1
         else:
             bind[a["n"]] = a
+    if mode == "explicit_default":
+        for (n, d) in g["params"]:
+            if n not in bind and d != ir.NODEFAULT:
+                bind[n] = {"k": "kw", "n": n, "v": d}
+        mode = "kw"
+    elif mode == "omit_default":
+        for (n, d) in g["params"]:
+            a = bind.get(n)
+            if a is not None and a["k"] in ("lit", "kw") and d != ir.NODEFAULT and a["v"] == d and type(a["v"]) is type(d):
+                del bind[n]
+        mode = "kw"
     if mode == "pos":
         args = []
         for n in pnames:
